@@ -4,4 +4,229 @@ import MysyncModel.App.Lost
 namespace LostLemmas
 open Lost
 
+/-! ### `checkHAReplicasRunning` -/
+
+/-- the second component only says whether some probe timed out -/
+theorem running_snd (cfg : Cfg) (i : In) :
+    (replicasRunning cfg i).2 = decide (unreachable i.probes > 0) := by
+  unfold replicasRunning
+  split
+  · split <;> rfl
+  · rfl
+
+/-- the first component is exactly the "live group" arithmetic -/
+theorem running_fst_iff (cfg : Cfg) (i : In) :
+    (replicasRunning cfg i).1 = true ↔
+      ((cfg.semiSync = true ∧ ∃ w, i.localWaitCount = some w ∧ available i.probes ≥ w) ∨
+       (cfg.semiSync = false ∧ available i.probes ≥ (i.haCount : Int) - 1)) := by
+  unfold replicasRunning
+  cases hs : cfg.semiSync
+  · simp
+  · cases hw : i.localWaitCount <;> simp
+
+/-! ### normal form of `stateLost` -/
+
+/-- the value of `ZKHALost[local]` after the iteration, when the node is not exempt -/
+def timer' (i : In) : Option Int :=
+  if unreachable i.probes > 0 then (match i.timer with | some t => some t | none => some i.now)
+  else i.timer
+
+/-- the postponement decision -/
+def postpone (cfg : Cfg) (i : In) : Bool :=
+  decide (unreachable i.probes > 0) &&
+    (match timer' i with | some t => decide (i.now - t ≤ cfg.inactivationDelay) | none => false)
+
+/-- the fencing sequence -/
+def fence (i : In) (tm : Option Int) : Out :=
+  if i.localIsMaster then
+    match i.firstRo with
+    | .ok | .other => { acts := [.setReadOnlyForce], next := .lost, timer := tm }
+    | .deadline | .lockWait1205 =>
+      match i.ack with
+      | .err => { acts := [.setReadOnlyForce, .checkWaitingAck], next := .lost, timer := tm }
+      | .notWaiting => { acts := [.setReadOnlyForce, .checkWaitingAck, .readGtid], next := .lost, timer := tm }
+      | .waiting =>
+        if !i.stopReplOfflineOk then { acts := [.setReadOnlyForce, .checkWaitingAck, .setOffline], next := .lost, timer := tm }
+        else if !i.stopReplDisableOk then { acts := [.setReadOnlyForce, .checkWaitingAck, .setOffline, .semiSyncDisable], next := .lost, timer := tm }
+        else if !i.secondRoOk then { acts := [.setReadOnlyForce, .checkWaitingAck, .setOffline, .semiSyncDisable, .setReadOnlyForce], next := .lost, timer := tm }
+        else { acts := [.setReadOnlyForce, .checkWaitingAck, .setOffline, .semiSyncDisable, .setReadOnlyForce, .readGtid], next := .lost, timer := tm }
+  else { acts := [.setReadOnly, .readGtid], next := .lost, timer := tm }
+
+/-- `stateLost` as a flat decision list -/
+theorem stateLost_eq (cfg : Cfg) (i : In) :
+    stateLost cfg i =
+      if i.connected then { acts := [], next := .candidate, timer := none }
+      else if i.haCount = 1 ∨ i.localIsHA = false ∨ cfg.disableSetReadonlyOnLost = true then
+        { acts := [], next := .lost, timer := i.timer }
+      else if i.localIsMaster = true ∧ (replicasRunning cfg i).1 = true then
+        { acts := [], next := .lost, timer := none }
+      else if postpone cfg i then { acts := [], next := .lost, timer := timer' i }
+      else fence i (timer' i) := by
+  have h2 := running_snd cfg i
+  unfold stateLost postpone fence timer'
+  generalize replicasRunning cfg i = r at *
+  obtain ⟨a, b⟩ := r
+  simp only at h2
+  subst h2
+  cases i.connected <;> cases i.localIsHA <;> cases cfg.disableSetReadonlyOnLost <;>
+    cases i.localIsMaster <;> cases a <;> by_cases h1 : i.haCount = 1 <;>
+    by_cases hu : unreachable i.probes > 0 <;> simp [h1, hu] <;>
+    (cases i.firstRo <;> cases i.ack <;> rfl)
+
+/-- the not-exempt part: postpone or fence -/
+theorem stateLost_not_exempt (cfg : Cfg) (i : In) (hc : i.connected = false) (h1 : i.haCount ≠ 1)
+    (h2 : i.localIsHA = true) (h3 : cfg.disableSetReadonlyOnLost = false)
+    (h4 : ¬ (i.localIsMaster = true ∧ (replicasRunning cfg i).1 = true)) :
+    stateLost cfg i =
+      if postpone cfg i then { acts := [], next := .lost, timer := timer' i } else fence i (timer' i) := by
+  rw [stateLost_eq]
+  simp [hc, h1, h2, h3, h4]
+
+/-- the live-group part: nothing done, timer cleared -/
+theorem stateLost_live (cfg : Cfg) (i : In) (hc : i.connected = false) (h1 : i.haCount ≠ 1)
+    (h2 : i.localIsHA = true) (h3 : cfg.disableSetReadonlyOnLost = false)
+    (h4 : i.localIsMaster = true ∧ (replicasRunning cfg i).1 = true) :
+    stateLost cfg i = { acts := [], next := .lost, timer := none } := by
+  rw [stateLost_eq]
+  simp [hc, h1, h2, h3, h4]
+
+/-- the statically exempt part: nothing done, timer kept -/
+theorem stateLost_static (cfg : Cfg) (i : In) (hc : i.connected = false)
+    (h : i.haCount = 1 ∨ i.localIsHA = false ∨ cfg.disableSetReadonlyOnLost = true) :
+    stateLost cfg i = { acts := [], next := .lost, timer := i.timer } := by
+  rw [stateLost_eq]
+  simp [hc, h]
+
+/-! ### the fencing sequence -/
+
+theorem fence_acts_ne_nil (i : In) (tm : Option Int) : (fence i tm).acts ≠ [] := by
+  unfold fence
+  cases i.localIsMaster <;> cases i.firstRo <;> cases i.ack <;> cases i.stopReplOfflineOk <;>
+    cases i.stopReplDisableOk <;> cases i.secondRoOk <;> simp
+
+theorem fence_timer (i : In) (tm : Option Int) : (fence i tm).timer = tm := by
+  unfold fence
+  cases i.localIsMaster <;> cases i.firstRo <;> cases i.ack <;> cases i.stopReplOfflineOk <;>
+    cases i.stopReplDisableOk <;> cases i.secondRoOk <;> simp
+
+theorem fence_head (i : In) (tm : Option Int) :
+    (i.localIsMaster = true ∧ (fence i tm).acts.head? = some .setReadOnlyForce) ∨
+    (i.localIsMaster = false ∧ (fence i tm).acts = [.setReadOnly, .readGtid]) := by
+  unfold fence
+  cases i.localIsMaster <;> cases i.firstRo <;> cases i.ack <;> cases i.stopReplOfflineOk <;>
+    cases i.stopReplDisableOk <;> cases i.secondRoOk <;> simp
+
+theorem fence_stuck (i : In) (tm : Option Int) (hm : i.localIsMaster = true)
+    (hro : i.firstRo = .deadline ∨ i.firstRo = .lockWait1205) (hack : i.ack = .waiting)
+    (h1 : i.stopReplOfflineOk = true) (h2 : i.stopReplDisableOk = true) :
+    ∃ tail, (fence i tm).acts =
+      [.setReadOnlyForce, .checkWaitingAck, .setOffline, .semiSyncDisable, .setReadOnlyForce] ++ tail := by
+  unfold fence
+  rcases hro with hro | hro <;> cases h3 : i.secondRoOk <;> simp [hm, hro, hack, h1, h2]
+
+theorem fence_off_only_if_stuck (i : In) (tm : Option Int)
+    (h : Act.semiSyncDisable ∈ (fence i tm).acts ∨ Act.setOffline ∈ (fence i tm).acts) :
+    i.localIsMaster = true ∧ (i.firstRo = .deadline ∨ i.firstRo = .lockWait1205) ∧ i.ack = .waiting := by
+  unfold fence at h
+  revert h
+  cases i.localIsMaster <;> cases i.firstRo <;> cases i.ack <;> cases i.stopReplOfflineOk <;>
+    cases i.stopReplDisableOk <;> cases i.secondRoOk <;> simp
+
+/-! ### the postponement decision -/
+
+theorem postpone_true (cfg : Cfg) (i : In) (h : postpone cfg i = true) :
+    unreachable i.probes > 0 ∧
+    ∃ t, timer' i = some t ∧ i.now - t ≤ cfg.inactivationDelay ∧
+      (i.timer = some t ∨ (i.timer = none ∧ t = i.now)) := by
+  unfold postpone at h
+  simp only [Bool.and_eq_true, decide_eq_true_eq] at h
+  obtain ⟨hu, h⟩ := h
+  refine ⟨hu, ?_⟩
+  unfold timer' at h ⊢
+  simp only [hu, if_true] at h ⊢
+  cases ht : i.timer with
+  | none => simp [ht] at h ⊢; exact h
+  | some t => simp [ht] at h ⊢; exact h
+
+theorem postpone_false_of_no_unreachable (cfg : Cfg) (i : In) (hu : unreachable i.probes = 0) :
+    postpone cfg i = false := by
+  unfold postpone
+  simp [hu]
+
+theorem postpone_false_of_expired (cfg : Cfg) (i : In) (t : Int) (ht : i.timer = some t)
+    (hd : i.now - t > cfg.inactivationDelay) : postpone cfg i = false := by
+  unfold postpone timer'
+  by_cases hu : unreachable i.probes > 0
+  · simp [hu, ht]; omega
+  · simp [hu]
+
+/-! ### exempt / not exempt (unfolded forms of the `C08` definitions) -/
+
+/-- the unfolded form of `C08.LiveGroup` -/
+abbrev Live (cfg : Cfg) (i : In) : Prop :=
+  i.localIsMaster = true ∧
+  ((cfg.semiSync = true ∧ ∃ w, i.localWaitCount = some w ∧ available i.probes ≥ w) ∨
+   (cfg.semiSync = false ∧ available i.probes ≥ (i.haCount : Int) - 1))
+
+theorem live_iff (cfg : Cfg) (i : In) :
+    Live cfg i ↔ (i.localIsMaster = true ∧ (replicasRunning cfg i).1 = true) :=
+  and_congr Iff.rfl (running_fst_iff cfg i).symm
+
+/-- the unfolded form of `C08.Exempt` -/
+abbrev Exempt' (cfg : Cfg) (i : In) : Prop :=
+  i.haCount = 1 ∨ i.localIsHA = false ∨ cfg.disableSetReadonlyOnLost = true ∨ Live cfg i
+
+/-- exempt: nothing done, the node stays lost -/
+theorem stateLost_exempt (cfg : Cfg) (i : In) (hc : i.connected = false) (he : Exempt' cfg i) :
+    (stateLost cfg i).acts = [] ∧ (stateLost cfg i).next = .lost := by
+  by_cases hs : i.haCount = 1 ∨ i.localIsHA = false ∨ cfg.disableSetReadonlyOnLost = true
+  · rw [stateLost_static cfg i hc hs]; exact ⟨rfl, rfl⟩
+  · have hl : Live cfg i := by
+      rcases he with h | h | h | h
+      · exact absurd (Or.inl h) hs
+      · exact absurd (Or.inr (Or.inl h)) hs
+      · exact absurd (Or.inr (Or.inr h)) hs
+      · exact h
+    simp only [not_or, Bool.not_eq_false, Bool.not_eq_true] at hs
+    rw [stateLost_live cfg i hc hs.1 hs.2.1 hs.2.2 ((live_iff cfg i).1 hl)]; exact ⟨rfl, rfl⟩
+
+/-- not exempt: postpone or fence -/
+theorem stateLost_of_not_exempt (cfg : Cfg) (i : In) (hc : i.connected = false)
+    (hne : ¬ Exempt' cfg i) :
+    stateLost cfg i =
+      if postpone cfg i then { acts := [], next := .lost, timer := timer' i } else fence i (timer' i) := by
+  simp only [Exempt', not_or, Bool.not_eq_false, Bool.not_eq_true] at hne
+  exact stateLost_not_exempt cfg i hc hne.1 hne.2.1 hne.2.2.1 (fun h => hne.2.2.2 ((live_iff cfg i).2 h))
+
+/-- not exempt and nothing done: this is a postponement -/
+theorem postpone_of_no_acts (cfg : Cfg) (i : In) (hc : i.connected = false)
+    (hne : ¬ Exempt' cfg i) (hnone : (stateLost cfg i).acts = []) :
+    postpone cfg i = true ∧ (stateLost cfg i).timer = timer' i := by
+  rw [stateLost_of_not_exempt cfg i hc hne] at hnone ⊢
+  cases hp : postpone cfg i
+  · rw [hp] at hnone
+    exact absurd hnone (fence_acts_ne_nil i (timer' i))
+  · exact ⟨rfl, rfl⟩
+
+/-- not exempt and not postponed: fenced -/
+theorem acts_of_not_postponed (cfg : Cfg) (i : In) (hc : i.connected = false)
+    (hne : ¬ Exempt' cfg i) (hp : postpone cfg i = false) :
+    stateLost cfg i = fence i (timer' i) := by
+  rw [stateLost_of_not_exempt cfg i hc hne, hp]; rfl
+
+/-- something done: it is the fencing sequence -/
+theorem fence_of_acts (cfg : Cfg) (i : In) (hne : (stateLost cfg i).acts ≠ []) :
+    ∃ tm, stateLost cfg i = fence i tm := by
+  rw [stateLost_eq] at hne ⊢
+  split at hne
+  · exact absurd rfl hne
+  · split at hne
+    · exact absurd rfl hne
+    · split at hne
+      · exact absurd rfl hne
+      · split at hne
+        · exact absurd rfl hne
+        · rename_i h1 h2 h3 h4
+          exact ⟨timer' i, by simp [h1, h2, h3, h4]⟩
+
 end LostLemmas
